@@ -46,7 +46,8 @@ def subspace_obligations(chk, F, system, tier):
     try:
         rows = FC.capture_relations(F, system)
     except Exception as e:
-        chk.violation("%s:relations-unreadable" % system, "fill_cij cannot use the packaged relations of %s: %s: %s"
+        # the capture runs the real code on a concrete probe: an exception here is the real code's
+        chk.violation("%s:relations-unreadable" % system, "fill_cij(one-row table with c11, %r, both ignore flags) raises %s: %s"
                       % (system, type(e).__name__, e), dict(system=system))
         return None
     rel = FC.relation_forms(rows, cv)
